@@ -11,6 +11,7 @@ import (
 	"net/http"
 	"strconv"
 	"strings"
+	"sync"
 )
 
 /*
@@ -20,6 +21,11 @@ Generic handler for pre-processing of web application input.
 */
 
 /*
+Serializes the processing of requests (options are applied to process-wide settings prior to conversion).
+*/
+var handlerMutex sync.Mutex
+
+/*
 Second-level general handler that retrieves and preprocesses information from input.
 Delegates to third-order handler for output-specific generation.
 Should be invoked by #ConverterHandlerTabular() and #ConverterHandlerVisual().
@@ -27,6 +33,9 @@ Should be invoked by #ConverterHandlerTabular() and #ConverterHandlerVisual().
 func converterHandler(w http.ResponseWriter, r *http.Request, templateName string) {
 
 	verifYield(w, "enter")
+	// Requests are processed one at a time, since the output options are process-wide settings
+	handlerMutex.Lock()
+	defer handlerMutex.Unlock()
 
 	//// STEP 1: Read all parameters from returned form
 
